@@ -10,6 +10,7 @@ from __future__ import annotations
 import numpy as np
 
 from vf.refmodel import gates as G
+from vf.refmodel import interp as I
 from vf.refmodel import linalg as L
 from vf.workloads import gatepool as GP
 from vf.workloads import programs as P
@@ -21,7 +22,7 @@ RULE = ("values = catalogue gate x parameters x 0-2 wrappers (tags, qubit permut
         "identity; distinct by (family, params, wrappers)")
 ASSUMPTIONS = ["catalogue matrices are ground truth", "decompositions of MatrixGate-like values are compared up to global phase, all others exactly",
                "tolerance 1e-6 (complex128) / 2e-4 (complex64 tensors)"]
-MIN_EVAL = {"unitary": 500, "apply_unitary": 1500, "decompose": 300, "apply_channel": 300, "act_on": 500}
+MIN_EVAL = {"unitary": 500, "apply_unitary": 1500, "decompose": 300, "apply_channel": 300, "act_on": 500, "moment-values": 200}
 MUST_REACH = [
     "cirq/protocols/apply_unitary_protocol.py:_strat_apply_unitary_from_apply_unitary",
     "cirq/protocols/apply_unitary_protocol.py:_strat_apply_unitary_from_unitary",
@@ -454,9 +455,54 @@ def sec_controlled_decompose(ctx, rng, case):
     ctx.sample({"family": name, "control_values": [list(c) for c in combo]})
 
 
+def sec_moment_values(ctx, rng, case):
+    """a Moment as a value: its unitary / Kraus set / superoperator act on the moment's qubits in sorted order, whatever
+    the order and interleaving of its operations"""
+    import cirq
+    from vf.workloads import programs as PP
+
+    n = int(rng.integers(3, 6))
+    dims = (2,) * n
+    qubits = [cirq.LineQubit(i) for i in range(n)] if rng.random() < 0.6 else [cirq.GridQubit(0, i) for i in range(n)]
+    free = [int(x) for x in rng.permutation(n)]
+    steps = []
+    while free and len(steps) < 3:
+        k = 2 if (len(free) >= 2 and rng.random() < 0.6) else 1
+        w, free = tuple(free[:k]), free[k:]
+        kind = "c" if (k == 1 and rng.random() < 0.4) else "u"
+        cands = [sp for sp in PP.pools()[kind] if sp.shape == (2,) * k and "custom" not in sp.tags]
+        sp = cands[int(rng.integers(len(cands)))]
+        steps.append({"t": "K" if kind == "c" else "U", "spec": sp.name, "p": sp.sample(rng), "w": w})
+    try:
+        ops = [PP.step_to_op(st, qubits) for st in steps]
+    except ValueError:
+        ctx.reject("constructor")
+        return
+    rng.shuffle(ops)
+    m = cirq.Moment(ops)
+    used = sorted(set(w for st in steps for w in st["w"]))
+    pos = {w: i for i, w in enumerate(used)}
+    sub = (2,) * len(used)
+    ref_steps = [(I.K(PP.spec_by_name(st["spec"]).ref(st["p"]), [pos[w] for w in st["w"]]) if st["t"] == "K"
+                  else I.U(PP.spec_by_name(st["spec"]).ref(st["p"]), [pos[w] for w in st["w"]])) for st in steps]
+    S_ref = I.superop_of(ref_steps, sub)
+    wit = dict(n=n, program=PP.describe(steps), op_order=[repr(o)[:60] for o in ops])
+    ks = cirq.kraus(m, None)
+    ctx.check(ks is not None and L.allclose(L.superop(list(ks)), S_ref, 1e-7), "moment-values", "C04:moment-kraus",
+              "kraus(Moment) is not the channel of its operations on the moment's sorted qubits", **wit)
+    ctx.check(L.allclose(m._superoperator_(), S_ref, 1e-7), "moment-values", "C04:moment-superoperator", "", **wit)
+    if all(st["t"] == "U" for st in steps):
+        U_ref = I.unitary_of(ref_steps, sub)
+        um = cirq.unitary(m, None)
+        ctx.check(um is not None and L.allclose(um, U_ref, 1e-7), "moment-values", "C04:moment-unitary", "", **wit)
+    interleaved = any(len(st["w"]) == 2 and any(min(st["w"]) < w < max(st["w"]) for w in used) for st in steps)
+    ctx.distinct((tuple(PP.describe(steps)), tuple(repr(o) for o in ops)), nontrivial=interleaved)
+
+
 SECTIONS = [
     ("unitary_values", sec_unitary_values, 3500, 90000, 6.0),
     ("channels", sec_channels, 1200, 30000, 1.5),
     ("measure", sec_measure, 200, 2000, 0.3),
     ("controlled_decompose", sec_controlled_decompose, 1170, 30000, 1.5),
+    ("moment_values", sec_moment_values, 600, 12000, 1.0),
 ]
